@@ -1888,4 +1888,47 @@ theorem framesWritten_length (dtype : Option DType) (clip : Bool) (frames fr : L
   | some d => exact castFrames_length d clip frames fr h
 
 
+/-- A page of the stack-level model as the mixin writes it. -/
+def toTiff (o : OutPage Rat) : TiffPage := ⟨encodeRange o.start o.stop, exposureMs o.exposure, o.img.flatten⟩
+
+theorem zipPages_toTiff : ∀ (imgs : List (List (List Rat))) (rd re : List (Int × Int)),
+    (zipPages imgs rd (re.map fun r => r.2 - r.1)).map toTiff =
+      ((imgs.map List.flatten).zip (rd.zip (exposureTimesMs re))).map
+        fun t => (⟨encodeRange t.2.1.1 t.2.1.2, t.2.2, t.1⟩ : TiffPage) := by
+  intro imgs
+  induction imgs with
+  | nil => intro rd re; simp [zipPages]
+  | cons i is ih =>
+    intro rd re
+    cases rd with
+    | nil => simp [zipPages]
+    | cons r rs =>
+      obtain ⟨a, b⟩ := r
+      cases re with
+      | nil => simp [zipPages, exposureTimesMs]
+      | cons e es =>
+        have := ih rs es
+        simp only [exposureTimesMs] at this ⊢
+        simp only [List.map_cons, zipPages, List.zip_cons_cons, this, toTiff]
+
+theorem ranges_length {α} (s : Stack) (f : File α) (dead : Bool) (r : List (Int × Int))
+    (h : s.ranges f dead = some r) : r.length = (s.visible f).length := by
+  unfold Stack.ranges at h
+  by_cases hd : dead = true
+  · rw [if_pos hd] at h
+    by_cases hl : f.legacy = true
+    · rw [if_pos hl] at h
+      by_cases hne : ((s.visible f).map fun p => (p.start, p.stop)) = []
+      · rw [hne] at h; cases h
+      · obtain ⟨r', hr', hlen, _⟩ := legacy_frame_ranges_len _ hne
+        rw [h] at hr'
+        cases hr'
+        rw [hlen, List.length_map]
+    · rw [if_neg hl] at h
+      cases h
+      rw [List.length_map]
+  · rw [if_neg hd] at h
+    cases h
+    rw [List.length_map]
+
 end Verif.C18
